@@ -8,6 +8,10 @@ the narrowed type read from the `x` node of each branch is judged with the membe
  (b) widened: a universe object belongs to the narrowed type but neither to V nor to the tested type;
  (c) always-true/false: a branch narrowed to Never (or a value_always_true / type_always_true diagnostic) although
      some inhabitant takes it.
+One (V, c) pair in SHAPE_EVERY is tested a second time in another SHAPE (see SHAPES / render_func): the condition stored
+in a variable and tested later - with x left alone, rebound from a second parameter on some paths, or on all paths -,
+walrus, early return, conditional expression, while-test. There the object that reaches a branch may be the rebound one;
+clause (a) is applied to whatever object reaches the probe.
 """
 from __future__ import annotations
 
@@ -19,12 +23,19 @@ from vp.ty import Ty
 ID = "C02"
 LEVEL = "exploration"
 RULE = (
-    "case = (declared type V, condition kind with operands, polarity); V enumerated over depth-1 leaves and depth-2 "
-    "unions/Optional/tuples/generics/enums/type[...] (sampled deeper in thorough); conditions: isinstance (single class "
-    "and tuple of classes), issubclass, is/is not, ==/!=, in/not in, truthiness, not, len comparisons, TypeIs and "
-    "TypeGuard helpers, match patterns (class/literal/sequence), and their and/or combinations; every function is "
-    "executed on inhabitants(V). Non-trivial = narrowed type differs from V in some branch or a branch is Never; "
-    "distinct by (constructor set of V, condition kind, polarity)."
+    "case = (declared type V, condition kind with operands, polarity, shape); V enumerated over depth-1 leaves and depth-2 "
+    "unions/Optional/tuples/generics/enums/type[...] (sampled deeper in thorough); conditions: isinstance / not isinstance "
+    "(single class; every 2-tuple of classes from int/float/complex/bool/str/NoneType, the 3-tuples of the numeric tower and "
+    "mixed ones), issubclass / not issubclass (single class, the same 2- and 3-tuples), is/is not, ==/!=, in/not in, "
+    "truthiness, not, len comparisons, TypeIs and TypeGuard helpers, match patterns (class/literal/sequence), and their "
+    "and/or combinations; every function is executed on inhabitants(V). Shape = how the condition reaches the branch: "
+    "every (V, condition) is tested directly (`if c:`), and every 6th one additionally in one of 20 other shapes drawn per "
+    "seed: condition stored in a variable and tested later (`ok = c ... if ok:` / `if not ok:`), with the tested variable "
+    "left alone, rebound from a second parameter y: V on SOME paths only (if-body, else-body, for-body, while-body, "
+    "try-body, except-body; taken or not according to a parameter r) or on all paths, walrus, early return, conditional "
+    "expression, while-test; these are executed on (x, y, r) over inhabitants(V)^2 x {False, True} and the object "
+    "that reaches a branch is judged against the type narrowed there. Non-trivial = narrowed type differs from V in some "
+    "branch or a branch is Never; distinct by (constructor set of V, condition kind, shape)."
 )
 ASSUMPTIONS = [
     "CPython evaluates the condition; vp.ty.member judges membership over inhabitants(V) and the universe U",
@@ -33,10 +44,13 @@ ASSUMPTIONS = [
     "UNKNOWN memberships are counted, never violations",
 ]
 FLOORS = {
-    "quick": {"distinct_nontrivial": 300, "functions": 3000, "branch_observations": 15000, "widening_checks": 3000},
-    "thorough": {"distinct_nontrivial": 500, "functions": 30000, "branch_observations": 150000},
+    "quick": {"distinct_nontrivial": 300, "functions": 3000, "branch_observations": 15000, "widening_checks": 3000,
+              "shaped_functions": 1300, "rebound_object_observations": 20000, "class_tuple_functions": 1200},
+    "thorough": {"distinct_nontrivial": 500, "functions": 30000, "branch_observations": 150000,
+                 "shaped_functions": 2600, "rebound_object_observations": 40000, "class_tuple_functions": 2400},
 }
 BATCH = 60
+SHAPE_EVERY = 6  # one (V, condition) pair in SHAPE_EVERY is additionally tested in a non-direct shape
 
 I, S, F, BL, NONE = ty.Cls(int), ty.Cls(str), ty.Cls(float), ty.Cls(bool), ty.NONE
 A, Bc, C = ty.Cls(prelude.A), ty.Cls(prelude.B), ty.Cls(prelude.C)
@@ -54,6 +68,7 @@ BASE_TYPES = [
     ty.List(I), ty.List(S), ty.Union(ty.List(I), NONE), ty.Union(I, ty.List(I)), ty.Union(ty.List(I), ty.Tuple(I, I)),
     ty.Dict(S, I), ty.Union(ty.Dict(S, I), NONE), ty.Set(I), ty.FrozenSet(I), ty.Seq(I), ty.Iter(I), ty.Union(S, ty.Cls(bytes)),
     ty.TypeOf(A), ty.TypeOf(ty.Union(A, C)), ty.TypeOf(I), ty.Union(ty.TypeOf(A), NONE), ty.Union(S, ty.List(S)),
+    ty.TypeOf(F), ty.TypeOf(ty.Cls(complex)), ty.Union(ty.Cls(complex), NONE),
     ty.TypedDictT("TD1", {"a": (I, True), "b": (S, False)}),
 ]
 
@@ -78,7 +93,57 @@ def opq() -> bool:
     return _tog[0]
 def lim() -> int:
     return 1
+def times(r: bool) -> typing.List[int]:
+    return [0] if r else []
+def need(r: bool) -> None:
+    if not r:
+        raise ValueError("no")
 '''
+
+# classes combined systematically into 2- and 3-tuples for isinstance()/issubclass()
+TUPLE_POOL = ["int", "float", "complex", "bool", "str", "type(None)"]
+NUMERIC = ["int", "float", "complex", "bool"]
+MIXED_TRIPLES = [("float", "complex", "str"), ("int", "str", "type(None)")]
+
+
+def class_tuples() -> list:
+    """[(names, is_numeric_only)]: every pair from TUPLE_POOL, the triples of the numeric tower, two mixed triples."""
+    import itertools
+
+    out = [(p, all(n in NUMERIC for n in p)) for p in itertools.combinations(TUPLE_POOL, 2)]
+    out += [(t, True) for t in itertools.combinations(NUMERIC, 3)]
+    out += [(t, False) for t in MIXED_TRIPLES]
+    return out
+
+
+# ---- shapes: how the condition reaches the branch -------------------------------------------------------------
+# name -> (family, uses (x, y, r), statements between `ok = <c>` and the test or None for the non-stored shapes)
+REBINDS = {
+    "none": None,
+    "if": ["if r:", "    x = y"],
+    "else": ["if r:", "    pass", "else:", "    x = y"],
+    "for": ["for _i in times(r):", "    x = y"],
+    "while": ["while r:", "    x = y", "    break"],
+    "try": ["try:", "    need(r)", "    x = y", "except ValueError:", "    pass"],
+    "except": ["try:", "    need(r)", "except ValueError:", "    x = y"],
+    "all": ["x = y"],
+}
+SHAPES = [f"stored{'-not' if neg else ''}+rebind-{rb}" if rb != "none" else f"stored{'-not' if neg else ''}"
+          for rb in REBINDS for neg in (False, True)] + ["walrus", "early-return", "ifexp", "while-test"]
+
+
+def shape_family(shape) -> str:
+    if shape is None:
+        return "direct"
+    if "+rebind-all" in shape:
+        return "stored+full-rebind"
+    if "+rebind-" in shape:
+        return "stored+partial-rebind"
+    return "stored" if shape.startswith("stored") else shape
+
+
+def shape_rebinds(shape) -> bool:
+    return shape is not None and "+rebind-" in shape
 
 
 class Cond:
@@ -100,8 +165,25 @@ def conditions(rng, thorough: bool) -> list:
     for (n1, c1), (n2, c2) in [(CLASSES[0], CLASSES[1]), (CLASSES[2], CLASSES[0]), (CLASSES[6], CLASSES[8]), (CLASSES[11], CLASSES[12]),
                                (CLASSES[3], CLASSES[1]), (CLASSES[9], CLASSES[10])]:
         out.append(Cond(f"isinstance(x, ({n1}, {n2}))", "isinstance-tuple", ty.Union(ty.Cls(c1), ty.Cls(c2))))
+    by_name = dict(CLASSES)
+    have = {c.src for c in out}
+    for names, numeric in class_tuples():
+        tested = ty.Union(*[ty.Cls(by_name[n]) for n in names])
+        src = f"isinstance(x, ({', '.join(names)}))"
+        if src not in have:
+            out.append(Cond(src, "isinstance-tuple", tested))
+        if numeric and len(names) == 2 or names == ("int", "float", "complex"):
+            out.append(Cond(f"not {src}", "not-isinstance-tuple", tested))
     for name, c in CLASSES[:11]:
         out.append(Cond(f"issubclass(x, {name})", "issubclass", ty.TypeOf(ty.Cls(c))))
+        out.append(Cond(f"not issubclass(x, {name})", "not-issubclass", ty.TypeOf(ty.Cls(c))))
+    for names, numeric in class_tuples():
+        if "type(None)" in names:
+            continue
+        tested = ty.TypeOf(ty.Union(*[ty.Cls(by_name[n]) for n in names]))
+        out.append(Cond(f"issubclass(x, ({', '.join(names)}))", "issubclass-tuple", tested))
+        if numeric and len(names) == 2:
+            out.append(Cond(f"not issubclass(x, ({', '.join(names)}))", "not-issubclass-tuple", tested))
     for lit in LITERALS:
         v = eval(lit, ns)
         identity_ok = v is None or isinstance(v, (bool, prelude.Color, type)) or lit in ("Num.ONE",)
@@ -196,8 +278,26 @@ def applicable(v: Ty, c: Cond) -> bool:
     return True
 
 
-def render_func(name: str, v: Ty, c: Cond, style: int) -> list:
+def render_func(name: str, v: Ty, c: Cond, style: int, shape=None) -> list:
     ann = ty.render(v, style)
+    if shape is not None:
+        pos, neg = "return __probe(1, x)", "return __probe(0, x)"
+        if shape.startswith("stored"):
+            head, _, rb = shape.partition("+rebind-")
+            mid = REBINDS[rb or "none"] or []
+            sig = f"def {name}(x: {ann}, y: {ann}, r: bool):" if rb else f"def {name}(x: {ann}):"
+            test = ["if not ok:", "    " + neg, "else:", "    " + pos] if head == "stored-not" else ["if ok:", "    " + pos, "else:", "    " + neg]
+            return [sig, f"    ok = {c.src}"] + ["    " + l for l in mid + test]
+        sig = f"def {name}(x: {ann}):"
+        if shape == "walrus":
+            return [sig, f"    if (ok := {c.src}):", "        " + pos, "    else:", "        " + neg]
+        if shape == "early-return":
+            return [sig, f"    if not ({c.src}):", "        " + neg, "    " + pos]
+        if shape == "ifexp":
+            return [sig, f"    return __probe(1, x) if {c.src} else __probe(0, x)"]
+        if shape == "while-test":
+            return [sig, f"    while {c.src}:", "        " + pos, "    " + neg]
+        raise ValueError(shape)
     if c.pattern is not None:
         return [
             f"def {name}(x: {ann}):",
@@ -235,12 +335,13 @@ def vkind(v: Ty) -> str:
 
 
 def check_batch(ctx, batch) -> None:
-    """batch: list of (V, Cond, style)."""
+    """batch: list of (V, Cond, style, shape) - shape None is the direct `if <c>:` form."""
+    batch = [b if len(b) == 4 else (*b, None) for b in batch]
     lines = ["from vp.prelude import *", "import typing", HELPERS]
     names = []
-    for i, (v, c, style) in enumerate(batch):
+    for i, (v, c, style, shape) in enumerate(batch):
         names.append(f"f{i}")
-        lines += render_func(f"f{i}", v, c, style) + [""]
+        lines += render_func(f"f{i}", v, c, style, shape) + [""]
     source = "\n".join(lines) + "\n"
     probes = []
 
@@ -268,12 +369,17 @@ def check_batch(ctx, batch) -> None:
             for name, fn in funcs.items():
                 if d.lineno is not None and fn.lineno <= d.lineno <= fn.end_lineno:
                     diags_by_func.setdefault(name, []).append(d)
-        for i, (v, c, style) in enumerate(batch):
+        for i, (v, c, style, shape) in enumerate(batch):
             fn = funcs[f"f{i}"]
             ds = diags_by_func.get(f"f{i}", [])
             codes = {d.code for d in ds}
             ctx.count("evaluations")
             ctx.count("functions")
+            if shape is not None:
+                ctx.count("shaped_functions")
+                ctx.histo("shape", shape)
+            if c.kind.endswith("-tuple"):
+                ctx.count("class_tuple_functions")
             if codes & {"incompatible_argument", "incompatible_call", "unsupported_operation", "undefined_name", "internal_error",
                         "undefined_attribute", "not_callable", "bad_match", "impossible_pattern", "invalid_annotation"}:
                 ctx.count("functions_rejected_by_checker")
@@ -292,16 +398,20 @@ def check_batch(ctx, batch) -> None:
                 continue
             always = {"value_always_true": 1, "type_always_true": 1, "type_does_not_support_bool": None}
             claimed_always_true = any(d.code in ("value_always_true", "type_always_true") for d in ds)
-            inh = universe.inhabitants(v, ctx.rng, 10)
+            rebinds = shape_rebinds(shape)
+            inh = universe.inhabitants(v, ctx.rng, 8 if rebinds else 10)
             f = getattr(ins.module, f"f{i}")
             taken = {0: [], 1: []}
-            for it in inh:
+            # argument tuples: (x,) - or, when the shape rebinds x from y on the paths selected by r, (x, y, r)
+            calls = [(it,) for it in inh] if not rebinds else [(it, y, r) for it in inh for r in (False, True) for y in inh]
+            for call in calls:
+                it = call[0]
                 if c.eq_lits and (cross_type_equal(it.obj, c.eq_lits) or has_user_eq(it.obj)):
                     ctx.count("objects_excluded_cross_type_eq")
                     continue
                 del probes[:]
                 try:
-                    f(it.obj)
+                    f(*[a.obj if isinstance(a, universe.Item) else a for a in call])
                     if c.guard:
                         f(it.obj)  # the opaque guard alternates: observe both outcomes
                 except Exception as e:  # noqa: BLE001
@@ -313,16 +423,23 @@ def check_batch(ctx, batch) -> None:
                 for tag, value in observed:
                     taken[tag].append(it)
                     ctx.count("branch_observations")
+                    if rebinds and value is not it.obj:
+                        ctx.count("rebound_object_observations")
                     t, val = narrowed[tag]
                     m = ty.member(value, t)
                     if m is None:
                         ctx.count("membership_unknown")
                     elif m is False:
-                        key = lost_key(c, tag, it.obj, v, t)
-                        ctx.violation(key, f"x: {ty.render(v)}; condition `{cond_text(c)}` is {bool(tag)} for {it.src}, but the {'positive' if tag else 'negative'} branch narrows x to {val}",
-                                      wit(v, c, style, it.src))
+                        key = lost_key(c, tag, value, v, t, shape, stored_condition_value(fn))
+                        if shape is None:
+                            what = f"x: {ty.render(v)}; condition `{cond_text(c)}` is {bool(tag)} for {it.src}, but the {'positive' if tag else 'negative'} branch narrows x to {val}"
+                        else:
+                            args = ", ".join(a.src if isinstance(a, universe.Item) else repr(a) for a in call)
+                            what = (f"shape {shape}: f({args}) reaches the {'positive' if tag else 'negative'} branch with x = {value!r}, "
+                                    f"but pyanalyze narrows x to {val} there\n" + "\n".join(render_func("f", v, c, 0, shape)))
+                        ctx.violation(key, what, wit(v, c, style, it.src, shape, call))
             # (c) always-true / always-false verdicts
-            if claimed_always_true and taken[0] and c.kind in ("truthy", "not-truthy", "bool-call"):
+            if shape is None and claimed_always_true and taken[0] and c.kind in ("truthy", "not-truthy", "bool-call"):
                 it = taken[0][0] if c.kind != "not-truthy" else (taken[1][0] if taken[1] else None)
                 if it is not None:
                     ctx.violation("truthiness|falsy-member-of-type-assumed-always-true" if nominally_always_true(it.obj, v) else f"always-true-wrong|{c.kind}|{type(it.obj).__name__}",
@@ -339,15 +456,15 @@ def check_batch(ctx, batch) -> None:
                     bad = universe.subset_over_u(t, allowed)
                     ctx.count("widening_checks")
                     if bad is not None:
-                        key = f"widened|{prim_kinds(c.kind)}|{'pos' if tag else 'neg'}|{vkind(v)}|narrowed:{tkind(t)}"
-                        ctx.violation(key, f"x: {ty.render(v)}; condition `{cond_text(c)}` {'positive' if tag else 'negative'} branch narrows x to {val}, which admits {bad.src} (neither in the declared nor in the tested type)",
-                                      wit(v, c, style, bad.src))
+                        key = f"widened|{shape_prefix(shape)}{prim_kinds(c.kind)}|{'pos' if tag else 'neg'}|{vkind(v)}|narrowed:{tkind(t)}"
+                        ctx.violation(key, f"x: {ty.render(v)}; condition `{cond_text(c)}` {'(shape ' + shape + ') ' if shape else ''}{'positive' if tag else 'negative'} branch narrows x to {val}, which admits {bad.src} (neither in the declared nor in the tested type)",
+                                      wit(v, c, style, bad.src, shape))
             changed = any(narrowed[tag][0] != v_as_inferred(v) for tag in (0, 1))
             if any(narrowed[tag][0].kind == "Never" for tag in (0, 1)) or changed:
-                ctx.nontrivial((sorted(ty.kinds(v)), c.kind))
+                ctx.nontrivial((sorted(ty.kinds(v)), c.kind) if shape is None else (sorted(ty.kinds(v)), c.kind, shape))
             ctx.histo("cond_kind_x_outcome", f"{c.kind.split('(')[0]}:pos={len(taken[1])},neg={len(taken[0])}"[:40] if False else c.kind.split("(")[0])
         if len(ctx.samples) < 3:
-            v, c, style = batch[0]
+            v, c, style, shape = batch[0]
             ctx.sample({"declared": ty.render(v), "condition": cond_text(c)})
     finally:
         ins.dispose()
@@ -403,13 +520,44 @@ def in_intersection_of_unrelated_classes(o, v: Ty, tested) -> bool:
     return False
 
 
-def lost_key(c, tag, o, v: Ty, t: Ty) -> str:
+def shape_prefix(shape) -> str:
+    return "" if shape is None else shape_family(shape) + "|"
+
+
+def stored_condition_value(fn: ast.FunctionDef):
+    """The value pyanalyze inferred for the stored condition `ok` where it is tested (None for other shapes)."""
+    for node in ast.walk(fn):
+        if isinstance(node, ast.If):
+            test = node.test.operand if isinstance(node.test, ast.UnaryOp) else node.test
+            if isinstance(test, ast.Name) and test.id == "ok":
+                return getattr(test, "inferred_value", None)
+    return None
+
+
+def condition_carried_by_each_union_member(okval) -> bool:
+    """The stored condition's value is a union (e.g. `bool | Any` for `x != 0` with x: int | None) and the narrowing
+    constraint hangs on the members of that union rather than on the union as a whole."""
+    try:
+        from pyanalyze.stacked_scopes import ConstraintExtension
+        from pyanalyze.value import AnnotatedValue, MultiValuedValue
+
+        while isinstance(okval, AnnotatedValue):
+            okval = okval.value
+        return isinstance(okval, MultiValuedValue) and any(
+            isinstance(m, AnnotatedValue) and any(True for _ in m.get_metadata_of_type(ConstraintExtension)) for m in okval.vals)
+    except Exception:  # noqa: BLE001
+        return False
+
+
+def lost_key(c, tag, o, v: Ty, t: Ty, shape=None, okval=None) -> str:
+    if okval is not None and t.kind == "Never" and condition_carried_by_each_union_member(okval):
+        return "stored-condition|union-valued-condition-adds-its-constraint-twice-at-one-node-and-narrows-to-Never"
     prims = set(prim_kinds(c.kind).split("+"))
     if prims & TRUTHY_KINDS and nominally_always_true(o, v):
         return "truthiness|falsy-member-of-type-assumed-always-true"
     if in_intersection_of_unrelated_classes(o, v, c.tested):
         return "intersection|instance-of-two-unrelated-classes-is-narrowed-away"
-    return f"lost|{prim_kinds(c.kind)}|{'pos' if tag else 'neg'}|{type(o).__name__}|narrowed:{tkind(t)}"
+    return f"lost|{shape_prefix(shape)}{prim_kinds(c.kind)}|{'pos' if tag else 'neg'}|{type(o).__name__}|narrowed:{tkind(t)}"
 
 
 def v_as_inferred(v: Ty) -> Ty:
@@ -434,8 +582,9 @@ def cond_text(c: Cond) -> str:
     return c.src if c.src is not None else f"match x: case {c.pattern}{' if ' + c.guard if c.guard else ''}"
 
 
-def wit(v, c, style, obj_src):
-    return {"declared": ty.render(v, 0), "style": style, "cond_src": c.src, "pattern": c.pattern, "kind": c.kind,
+def wit(v, c, style, obj_src, shape=None, call=None):
+    return {"declared": ty.render(v, 0), "style": style, "cond_src": c.src, "pattern": c.pattern, "kind": c.kind, "shape": shape,
+            "call": [a.src if isinstance(a, universe.Item) else repr(a) for a in call] if call and shape else None,
             "tested": ty.render(c.tested) if c.tested is not None and c.tested.kind != "Opaque" else None,
             "eq_lits": [ty.lit_source(l) for l in c.eq_lits], "obj": obj_src, "guard": c.guard}
 
@@ -455,14 +604,18 @@ def shard(ctx) -> None:
                 types.append(t)
     work = []
     idx = 0
+    srng = rng.__class__(f"C02-shapes/{ctx.seed}")  # consumed identically in every shard
     for v in types:
         for c in conds:
             idx += 1
+            shape = srng.choice(SHAPES) if c.src is not None and srng.randrange(SHAPE_EVERY) == 0 else None
             if not ctx.mine(idx):
                 continue
             if not applicable(v, c):
                 continue
-            work.append((v, c, idx % 2))
+            work.append((v, c, idx % 2, None))
+            if shape is not None:
+                work.append((v, c, idx % 2, shape))
     for i in range(0, len(work), BATCH):
         check_batch(ctx, work[i : i + BATCH])
 
@@ -476,7 +629,7 @@ def replay(witness):
     v = _find_ty(witness["declared"])
     tested = _find_ty(witness["tested"]) if witness.get("tested") else (ty.OPAQUE if witness["kind"].startswith("match-seq") or witness["kind"] in ("match-mapping", "callable") else None)
     c = Cond(witness["cond_src"], witness["kind"], tested, tuple(eval(l, ns) for l in witness.get("eq_lits", [])), witness.get("pattern"), witness.get("guard"))
-    check_batch(ctx, [(v, c, witness.get("style", 0))])
+    check_batch(ctx, [(v, c, witness.get("style", 0), witness.get("shape"))])
     for key, lst in ctx.violations.items():
         return key, lst[0]["what"]
     return None
